@@ -133,6 +133,7 @@ package stringclassifier
 //@   requires wfMatcher(m) && okKnown(known) && known.set != nil && held(&m.mu) == 0 && base <= ref(m) && base <= ref(m.queue)
 //@   ensures held(&m.mu) == 0
 //@   callghost findMatches$1 base = base
+//@   access knownValue.set read requires owner.set != nil
 //@   // if the known value occurs in the unknown text, the unknown text has tokens
 //@   // (needs reasoning about string containment that the Str theory lacks)
 //@   assumes len(m.unknown.Tokens) > 0
@@ -151,7 +152,7 @@ package stringclassifier
 //@   modifies known.set, m.queue.heap.a, elemsSince(m.queue.heap.a, base)
 //@   guarantee okKnown(known)
 //@   access knownValue.set read requires held(&c.muValues) >= 1
-//@   access knownValue.set write requires held(&c.muValues) == 2
+//@   access knownValue.set write requires held(&c.muValues) == 2 && owner.set == nil
 //@   access Classifier.values[] read requires held(&c.muValues) >= 1
 //@   access Classifier.values[] write requires held(&c.muValues) == 2
 //@   props C14 C13
